@@ -20,9 +20,13 @@ Dissent(kind) ==
     [] kind = "algmore" -> {Art(PA, "h1"), Art(PB, "both:h1")}
     [] kind = "algdigest" -> {Art(PA, "h1"), Art(PB, "s512:h2")}
     [] kind = "extra"   -> Base \cup {Art(<<"c">>, "h1")}
+    \* the same file named by ANOTHER SPELLING of its path ("./b", "x/../b"): another path as far as agreement goes
+    [] kind = "path_dot"    -> {Art(PA, "h1"), Art(<<".", "/", "b">>, "h1")}
+    [] kind = "path_dotdot" -> {Art(PA, "h1"), Art(<<"x", "/", ".", ".", "/", "b">>, "h1")}
+    [] kind = "extra_dot"   -> Base \cup {Art(<<".", "/", "b">>, "h2")}
     [] kind = "missing" -> {Art(PA, "h1")}
     [] kind = "empty"   -> {}
-Kinds7 == {"none", "path", "digest", "digest_f", "digest_m", "digest_l", "digest_t", "alg", "algmore", "algdigest", "extra", "missing", "empty"}
+Kinds7 == {"none", "path", "digest", "digest_f", "digest_m", "digest_l", "digest_t", "alg", "algmore", "algdigest", "extra", "path_dot", "path_dotdot", "extra_dot", "missing", "empty"}
 
 \* the dissenting signer may also (or only) have run another COMMAND: that is merely warned about
 LinkFor(k, dissents, kind, side) ==
